@@ -7,7 +7,7 @@ import json, os, re, shutil, subprocess, sys, time
 src, sid = sys.argv[1], sys.argv[2]
 props = sys.argv[3:]
 tier = os.environ.get("SEED_TIER", "quick")
-wt = "/tmp/ev-" + sid
+wt = "/tmp/ev-%s-%d" % (sid, os.getpid())
 VERIF = os.path.dirname(os.path.dirname(os.path.abspath(__file__)))  # the tree the checks run from (a snapshot under vp run)
 ENV = dict(os.environ)
 
